@@ -280,6 +280,14 @@ object return a value (case kind `zero`, round 8c) -/
 def zeroClauses (res : String) : List (String × Bool) :=
   [ ("zero_value_no_crash", res != "panic") ]
 
+/-- case kind `envk` (round 8 final): the raw TEXT of a variable against the decode kind of its field. A text that
+envconfig must refuse makes the section's `ApplyEnvVars` return an error AND leaves the section as it was (whole ToJSON
+before = after: nothing half-applied); no text makes it panic -/
+def envkClauses (pred : EnvK.Res) (res : String) (kept : Bool) : List (String × Bool) :=
+  [ ("no_crash", res != "panic"),
+    ("env_malformed_refused", pred != .refuse || res == "err"),
+    ("env_refused_keeps_all", res != "err" || kept) ]
+
 end Util
 
 end CV.C15
